@@ -57,8 +57,35 @@ theorem oracleOK_of_models_v3 (o : Oracle σ) (hpp : PerfectPowerModel o) (hfs :
   have hok := oracleOK_guard3 hpp hfs hqs hrho hpm1 hecm hsq hun hres
   exact ⟨hok, fun fuel n alg os => factor_guard3_eq o hok fuel n alg os⟩
 
-/-- the `rho` field of `guardOracle3 o` answers only where the model of `pollard_rho::rho` returns
-normally: with `oracleOK_of_models_v3`, no panic site of `rho64` is reachable from `factor` -/
+/-- **`rho_call_sites_total`**: on EVERY call-site argument (`RhoGuard n := NoSmall n ∧ n ≠ 1`, what
+`factor_impl` guarantees about the argument of `rho`) the model of `pollard_rho::rho` returns normally:
+no panic site of `rho64` (overflow of `x2 += c`, `mg_redc`, the `debug_assert` on `pow2k`) is reached
+and `mg_2adic_inv` terminates — whatever the answer (`None` included) is. -/
+theorem rho_call_sites_total (n : Nat) (hg : RhoGuard n) : ∃ r, Ymq.PollardRho.rho n = some r :=
+  rho_total_on_guard hg
+
+/-- **the `.join` of `RhoModel` is harmless on the guard**: `RhoModel` reads a model panic as `None`;
+on a call-site argument this reading never applies — `(rho n).join = r` says exactly `rho n = some r`. -/
+theorem rho_join_harmless (n : Nat) (hg : RhoGuard n) (r : Option (List Nat × Nat)) :
+    (Ymq.PollardRho.rho n).join = r ↔ Ymq.PollardRho.rho n = some r :=
+  rho_join_iff_on_guard hg r
+
+/-- same for `PerfectPowerModel` below the size limit of `factor` (`n < 2^1024`; `factor` refuses
+inputs above 500 bits and only passes divisors of the trial-divided input on) -/
+theorem pp_join_harmless (n : Nat) (hn : n < 2 ^ 1024) (r : Option (Nat × Nat)) :
+    (Ymq.Arith.perfectPower n).join = r ↔ Ymq.Arith.perfectPower n = some r :=
+  pp_join_iff_small hn r
+
+/-- consequence for an oracle satisfying `RhoModel`: on the guard the field's answer IS the normal
+return value of the model, `None` answers included (no "panic read as `None`") -/
+theorem rho_model_exact_on_guard (o : Oracle σ) (h : RhoModel o) (t : σ) (n : Nat) (hg : RhoGuard n) :
+    Ymq.PollardRho.rho n = some (o.rho t n).1 :=
+  (rho_join_iff_on_guard hg _).mp (h t n).symm
+
+/-- corollary of `rho_call_sites_total` (kept under its old name; it only speaks about `some` answers
+of the guarded field, which exist only inside `RhoGuard`): where the `rho` field of `guardOracle3 o`
+answers `some _`, the model of `pollard_rho::rho` returns normally. The statement about ALL call-site
+arguments, `None` answers included, is `rho_call_sites_total`. -/
 theorem rho_call_sites_return (o : Oracle σ) (t : σ) (n : Nat) (as : List Nat) (b : Nat)
     (h : ((guardOracle3 o).rho t n).1 = some (as, b)) : ∃ r, Ymq.PollardRho.rho n = some r :=
   guard3_rho_returns t n as b h
@@ -135,7 +162,22 @@ example : (∃ l, factor modelOracle4 20 233788 .auto () = .ok l ∧ l.prod = 23
 
 example : (modelOracle4.pp () 58447).1 = none ∧ 58447 < 2 ^ 1024 := by decide +kernel
 
-/-- non-vacuity of `rho_call_sites_return`: 58447 = 211·277 is inside `RhoGuard` -/
+/-- non-vacuity of `rho_call_sites_total` / `rho_join_harmless` / `rho_call_sites_return`:
+58447 = 211·277 is inside `RhoGuard` -/
 example : RhoGuard 58447 := ⟨by unfold NoSmall; decide +kernel, by decide⟩
+
+/-- … and so is the prime 211, where the answer is `None` (the case the old statement did not cover) -/
+example : RhoGuard 211 ∧ Ymq.PollardRho.rho 211 = some none ∧ (modelOracle4.rho () 211).1 = none :=
+  ⟨⟨by unfold NoSmall; decide +kernel, by decide⟩, by decide +kernel, by decide +kernel⟩
+
+example : Ymq.PollardRho.rho 211 = some (modelOracle4.rho () 211).1 :=
+  rho_model_exact_on_guard modelOracle4 model4_rho () 211 ⟨by unfold NoSmall; decide +kernel, by decide⟩
+
+/-- outside the guard the `.join` does matter: the model of `rho` on the even word 4 does not return
+(`mg_2adic_inv` loops), and `.join` reads it as `None` -/
+example : Ymq.PollardRho.rho 4 = none ∧ (Ymq.PollardRho.rho 4).join = none ∧ ¬ RhoGuard 4 := by decide +kernel
+
+/-- non-vacuity of `pp_join_harmless` -/
+example : (58447 : Nat) < 2 ^ 1024 ∧ Ymq.Arith.perfectPower 58447 = some none := by decide +kernel
 
 end Ymq.C01
